@@ -328,6 +328,10 @@ pub fn run(tier: Tier) -> i32 {
     for s in SEEDS {
         texts.push((s.to_string(), json!({"driver":"seed"})));
     }
+    // the window programs of C04 (partitions, sorts — also by computed keys —, frames, placements)
+    for s in crate::c04::program_texts(tier) {
+        texts.push((s, json!({"driver":"AP-window"})));
+    }
     if let Ok(rd) = std::fs::read_dir(format!("{}/prqlc/prqlc/tests/integration/queries", crate::report::repo_root())) {
         let mut files: Vec<_> = rd.filter_map(|e| e.ok()).map(|e| e.path()).filter(|p| p.extension().map(|x| x == "prql").unwrap_or(false)).collect();
         files.sort();
